@@ -141,23 +141,75 @@ def reproduce(ck, line):
     return bool(again)
 
 
-def shards_for(ck, path):
-    n = sum(1 for _ in open(path))
-    return max(1, min(ck.cores, n // 40000 + 1))
+def validate_big(ck, path, par=6, per_shard=45000):
+    """ck.validate runs one 3 GB-heap TLC per shard, all shards at once: feed it the trace file in pieces of at most `par` shards so
+    that the memory in use stays bounded whatever the size of the run."""
+    fails, part, n, k = [], [], 0, 0
+    def flush():
+        nonlocal part, n, k
+        if not part:
+            return
+        pp = ck.path("%s.part%d" % (os.path.basename(path), k))
+        with open(pp, "w") as f:
+            f.writelines(part)
+        fails.extend(ck.validate(SPEC, T[0], T[1], pp, shards=max(1, min(par, n // per_shard + 1)), timeout=1500))
+        os.remove(pp)
+        part, n, k = [], 0, k + 1
+    for line in open(path):
+        if n >= par * per_shard and line.startswith('{"ev":"Open"'):
+            flush()
+        part.append(line)
+        n += 1
+    flush()
+    return fails
+
+
+def selftest(ck):
+    """Binding: a conforming execution is accepted; the same trace with one kind changed, with one token dropped, and Is facts that
+    break either implication are rejected (the acceptance rule is not vacuous)."""
+    p = ck.path("self-in.ndjson")
+    with open(p, "w") as f:
+        f.write(json.dumps({"mode": "tok", "names": ["id.one", "sep.sp", "num.int"], "los": [0, 1, 2], "his": [1, 2, 3], "input": [103, 32, 53]}) + "\n")
+    ck.drive("csstok", "file", "-in", p, "-out", ck.path("self.ndjson"))
+    good = [json.loads(x) for x in open(ck.path("self.ndjson"))]
+    if [e["ev"] for e in good] != ["Open", "Tok", "Tok", "Tok", "End"]:
+        ck.fatal("selftest: unexpected trace shape %s" % [e["ev"] for e in good])
+    def renum(evs, t):
+        return [dict(e, t=t, i=i) for i, e in enumerate(evs)]
+    wrong_kind = [dict(e) for e in good]
+    wrong_kind[3]["kname"] = "Dimension"
+    isev = lambda **kw: dict({"ev": "Is", "out": "ret", "len": 1, "isIdent": False, "oneIdent": False, "isURL": False, "oneURL": False}, **kw)
+    isopen = {"ev": "Open", "out": "ret", "mode": "is"}
+    traces = [renum(good, 1), renum(wrong_kind, 2), renum(good[:2] + good[3:], 3), renum([isopen, isev(isIdent=True)], 4),
+              renum([isopen, isev(isURL=True)], 5), renum([isopen, isev(oneIdent=True)], 6),
+              renum([isopen, isev(isIdent=True, oneIdent=True, isURL=True, oneURL=True), isev(oneURL=True), isev(len=0, isIdent=True)], 7)]
+    sp = ck.path("selftest.ndjson")
+    with open(sp, "w") as f:
+        for tr in traces:
+            for e in tr:
+                f.write(json.dumps(e, separators=(",", ":")) + "\n")
+    fails = ck.validate(SPEC, T[0], T[1], sp, shards=1)
+    ck.cov["traces_validated_against_impl"] -= len(traces)
+    ck.cov["trace_events_validated"] -= sum(len(t) for t in traces)
+    got = sorted({f["t"] for f in fails})
+    if got != [2, 3, 4, 5, 6]:
+        ck.fatal("selftest: CssTokensTrace rejected traces %s, expected [2, 3, 4, 5, 6]" % got)
+    ck.cov["selftest"] = "conforming traces accepted; changed kind, dropped token, IsIdent/IsURLUnquoted disagreements rejected"
 
 
 def run(ck):
     thorough = ck.tier == "thorough"
+    selftest(ck)
     judge = Judge(ck)
     used_union, listed = set(), set()
 
     gens = [  # label, cfg, variants, sample, simulate
-        ("pairs", "Gen_pairs.cfg", 2, 1, None),
+        ("pairs", "Gen_pairs.cfg", 2, 1 if thorough else 2, None),
         ("separators", "Gen_seps.cfg", 2, 1, None),
         ("triples", "Gen_triples_thorough.cfg" if thorough else "Gen_triples_quick.cfg", 1, 25 if thorough else 1, None),
     ]
     if thorough:
-        gens.append(("deep", "Gen_deep.cfg", 2, 1, 80))
+        gens.append(("deep", "Gen_deep.cfg", 2, 2, 25))   # 25 behaviours per worker
 
     def pipeline(g):
         label, cfg, variants, sample, sim = g
@@ -212,12 +264,12 @@ def run(ck):
 
     # verdicts: TLC judges every recorded execution; pairs first (they fix which atoms are wrong on their own)
     for (label, cfg, variants, sample, sim), r, s, cases, tp in results:
-        fails = ck.validate(SPEC, T[0], T[1], tp, shards=shards_for(ck, tp), timeout=1500)
+        fails = validate_big(ck, tp)
         rejected = len({f["t"] for f in fails})
         if rejected > s["strict_differences"]:
             ck.fatal("%s: TLC rejected %d traces but the harness saw only %d differences" % (label, rejected, s["strict_differences"]))
         judge.run(fails, "replay of generated token sequences (%s, %s)" % (label, cfg))
-    fails = ck.validate(SPEC, T[0], T[1], is_trace, shards=shards_for(ck, is_trace), timeout=1500)
+    fails = validate_big(ck, is_trace)
     judge.run(fails, "IsIdent / IsURLUnquoted on every class string")
     ck.cov["states"] += is_r.distinct or 0
     ck.cov["transitions"] += is_r.generated or 0
@@ -232,7 +284,7 @@ def run(ck):
     ck.cov["exhaustive"] = True
     ck.cov["constants"] = {"atoms": len(listed), "pairs": "all atoms x all atoms x {nothing where the table allows, space, newline, comment}",
                            "triples": ("all atoms" if thorough else "41 look-ahead sensitive atoms") + ", juxtaposed wherever the table and Merges allow",
-                           "separators": "41 atoms squared x every separator item", "deep": "80 random sequences of 9 atoms, each with every admissible (separator, 10th atom) extension" if thorough else "-",
+                           "separators": "41 atoms squared x every separator item", "deep": "100 random sequences of 9 atoms, each with every admissible (separator, 10th atom) extension" if thorough else "-",
                            "class_strings_max_len": 5 if thorough else 4, "class_alphabet": 15}
     ck.cov["rule"] = ("token clause: every sequence TLC derived (pairs/triples exhaustive for the stated atom sets, thorough adds sampled sequences of 10 "
                       "atoms), spelled with seeded representatives per character class (variant 1 writes every newline as CR LF); non-trivial = case "
@@ -255,7 +307,7 @@ def is_pipeline(ck, thorough):
     r = ck.tlc(SPEC, "CssClassStrings", "Strings_thorough.cfg" if thorough else "Strings_quick.cfg", label="generator: class strings",
                env={"VERIF_CASES": cases}, timeout=1500, count=False, workers=4)
     tp = ck.path("trace-is.ndjson")
-    s = ck.drive("csstok", "is", "-cases", cases, "-out", tp, "-seed", ck.seed, "-variants", 2, timeout=1500)
+    s = ck.drive("csstok", "is", "-cases", cases, "-out", tp, "-seed", ck.seed, "-variants", 2, "-longlen", 5, timeout=1500)
     if s["cases"] == 0:
         ck.fatal("class string generator produced no cases")
     ck.log("is         %8d class strings, %8d distinct arguments, %d disagreements" % (s["cases"], s["executions"], s["strict_differences"]))
